@@ -243,6 +243,7 @@ def run(prop: str, tier_: str) -> int:
                     models.db.session.delete(row)
                     models.db.session.commit()
                 reps = reps + [('nokey', 'nk_v7_enc', 'm4v', 1)]
+                more_kids: dict[str, list[bytes]] = {}
                 ninit = 0
                 for stream, rid, ext, enc in reps:
                     sf = stored(da.blob_folder / stream / f'{rid}.mp4')
@@ -301,6 +302,12 @@ def run(prop: str, tier_: str) -> int:
                                             pssh_ok = 0
                                     if b.f.get('consumed') != b.size:
                                         pssh_ok = 0
+                                    # a version 1 box carries a table of key ids: the track's own, in the byte order of the tenc box
+                                    if b.f.get('version') == 1 and sid in (CLEARKEY, PLAYREADY) and not kdel:
+                                        table = b.f.get('key_ids', [])
+                                        allowed = [kid] + more_kids.get(rid, [])
+                                        if kid not in table or any(x not in allowed for x in table):
+                                            pssh_ok = 0
                                 lines.append({'tid': tid, 'ev': 'init', 'url': url, 'rep': rid, 'mode': mode, 'encrypted': enc, 'key_deleted': kdel,
                                               'want_pssh': expected_pssh(qv, bool(enc)),
                                               'obs': {'wf': 1 if pr.well_formed() else 0, 'same_except': 1 if same and tail_ok else 0, 'diff': diff,
